@@ -290,7 +290,7 @@ CHECKS = {
   "title": "Locality",
   "harnesses": [doc("VerifH_Locality", {"K": 2, "MENU": 0}, {"K": 3, "MENU": 0}),
                 doc("VerifH_Locality", {"K": 2, "MENU": 1}, {"K": 3, "MENU": 1}, full_schema_lib=True)],
-  "assumptions": DOC_ASSUME + ["fresh declarations: SERVER @c, TAG @c, TYPE @c any, parenthesised unused MACRO @c, GET /c with a 200 response; inserted before any top-level line or at the end"],
+  "assumptions": DOC_ASSUME + ["fresh declarations (names @a1 / /a1, sharing a string prefix with existing names): SERVER, TAG, TYPE any, parenthesised unused MACRO, GET with a 200 response, and - with the real schema library (MENU 1) - ENUM and an object TYPE; inserted before any top-level line or at the end"],
   "not_decided": DOC_NOT + ["coupling through the schema library (every schema receives every type and rule)", "allOf graphs"],
  },
 }
